@@ -9,7 +9,7 @@ from mc import transports as TR
 from mc.explore import Chooser, Cut
 from mc.runner import Acc
 
-SCENARIOS = ['eof-sticky', 'timeout0', 'timeout-small', 'timeout-listed', 'pending-beats-eof', 'eof-listed']
+SCENARIOS = ['eof-sticky', 'timeout0', 'timeout-small', 'timeout-listed', 'pending-beats-eof', 'eof-listed', 'closed-object-message']
 
 
 def tasks(tier):
@@ -118,6 +118,18 @@ def run_case(task, scen, entry):
                 r = call([S('zz'), EOF], 0.3)
                 if r != 1 or sp.before != S('b'):
                     viol = ('fields', 'EOF after the match: ret=%r before=%r' % (r, sp.before))
+        elif scen == 'closed-object-message':
+            # the diagnostic message is built from str(spawn): also on an object that was closed,
+            # with text still pending and an already expired timeout (no I/O is attempted)
+            link.now_w(b'zq')
+            r = call([S('z')], 0.3)
+            if task['transport'] != 'popen':
+                try:
+                    sp.close()
+                except Exception as e:
+                    viol = ('exception', 'close() raised %r' % (e,))
+            if viol is None:
+                viol = must_raise(TIMEOUT, [S('nomatch')], -0.5, S('q'))
         elif scen == 'eof-listed':
             link.now_w(b'q')
             link.now_exit(0)
@@ -189,7 +201,7 @@ def run_task(task):
             acc.nontrivial += 1
             acc.outcomes['B:%s:%s' % (scen, 'viol' if viol else 'ok')] += 1
             if not viol:
-                acc.flags[{'eof-sticky': 'after_eof_again', 'timeout0': 'timeout_raised', 'timeout-small': 'timeout_raised',
+                acc.flags[{'closed-object-message': 'timeout_raised', 'eof-sticky': 'after_eof_again', 'timeout0': 'timeout_raised', 'timeout-small': 'timeout_raised',
                            'timeout-listed': 'timeout_index', 'pending-beats-eof': 'pending_beats_marker', 'eof-listed': 'eof_index'}[scen]] += 1
             if viol:
                 acc.violation('B:%s:%s:%s:%s' % (task['transport'], entry, scen, viol[0]), viol[1],
